@@ -121,6 +121,7 @@ package heapq
 //@   ensures  [C05] moved: result != i ==> heapFrom(q, L)
 //@   ensures  [C05] stayed: result == i ==> heapBut(q, L, i) && unchanged(elems(q.data))
 //@   ensures  [C05] bag: bag(q.data) == old(bag(q.data))
+//@   ensures  [C05] top: i < len(q.data) && result != i ==> (2*i + 1 < len(q.data) && q.data[i] == old(q.data[2*i + 1])) || (2*i + 2 < len(q.data) && q.data[i] == old(q.data[2*i + 2]))
 //@   ensures  [C06] tracked: trk(q, i)
 //@   ensures  [C06] repbelow: isReporter(q.move) ==> forall j int :: {q.data[j]} 0 <= j && j < i && j < len(q.data) ==> rep[key(q.data[j])] == old(rep[key(q.data[j])])
 //@   modifies elems(q.data), rep
@@ -131,6 +132,7 @@ package heapq
 //@   loop 1: invariant [C05] kids: kidsAboveGrandparent(q, L, i)
 //@   loop 1: invariant [C05] same: i == old(i) ==> unchanged(elems(q.data))
 //@   loop 1: invariant [C05] bag: bag(q.data) == old(bag(q.data))
+//@   loop 1: invariant [C05] top: i != old(i) ==> old(i) < len(q.data) && ((2*old(i) + 1 < len(q.data) && q.data[old(i)] == old(q.data[2*i + 1])) || (2*old(i) + 2 < len(q.data) && q.data[old(i)] == old(q.data[2*i + 2])))
 //@   loop 1: invariant [C06] tracked: trk(q, old(i))
 //@   loop 1: invariant [C06] repbelow: isReporter(q.move) ==> forall j int :: {q.data[j]} 0 <= j && j < old(i) && j < len(q.data) ==> rep[key(q.data[j])] == old(rep[key(q.data[j])])
 //@   loop 1: decreases len(q.data) - i
@@ -148,9 +150,11 @@ package heapq
 //@   ensures  [C05] heap: heapOK(q)
 //@   ensures  [C05] bag: bagadd(bag(q.data), result) == old(bag(q.data))
 //@   ensures  [C05] vacated: backing(q.data, len(q.data)) == result
+//@   ensures  [C05] next: i == 0 && len(q.data) > 0 ==> ord(q.cmp, result, q.data[0]) <= 0
 //@   ensures  [C06] tracked: trk(q, 0)
 //@   modifies q.data, elems(q.data), rep
 //@   call pushDown#1: L = 0
+//@   at entry: apply [C05] rootMin(q)
 //@
 //@ func (*Queue).Pop
 //@   requires q != nil
@@ -163,6 +167,7 @@ package heapq
 //@   ensures  [C05] heap: heapOK(q)
 //@   ensures  [C05] bag: old(len(q.data)) > 0 ==> bagadd(bag(q.data), result.0) == old(bag(q.data))
 //@   ensures  [C05] vacated: old(len(q.data)) > 0 ==> backing(q.data, len(q.data)) == result.0
+//@   ensures  [C05] next: len(q.data) > 0 ==> ord(q.cmp, result.0, q.data[0]) <= 0
 //@   ensures  [C06] tracked: trk(q, 0)
 //@   modifies q.data, elems(q.data), rep
 //@   at entry: apply [C05] rootMin(q)
